@@ -64,7 +64,8 @@ reg('C07', 'exploration',
     'Exhaustive over the finite configuration space: all (unit system, unit type) pairs (148) - SI magnitude of the consistent unit, '
     'from its symbol (exact rational arithmetic) and as measured by the real Convert in long double, equals the product of the '
     'system\'s base units raised to the declared exponents - all 514 reverse lookups, and ALL call histories of length 3 (N^3 per unit type) of '
-    'RelatedUnitSystem, ConsistentUnit, Abbreviation, ParseEnumeration and Convert on the real code (a lookup must be a function of its argument only).',
+    'RelatedUnitSystem, ConsistentUnit, Abbreviation, ParseEnumeration and Convert on the real code (a lookup must be a function of its argument only; the three results are bound by reference '
+    'and read after the last call), and the same tables asked from a second and third thread, one after another, in both orders of first use.',
     TB + 'Symbol oracle atom table; the reading of unit-system enumerator names (Metre/Millimetre/Foot/Inch, Kilogram/Gram/Pound(-force), Second, Kelvin/Rankine).',
     'exhaustive enumeration of the finite configuration space against exact rational oracle', 'DESIGN.md section 7 C07', thorough=False)
 reg('C08', 'exploration',
@@ -72,7 +73,8 @@ reg('C08', 'exploration',
     'by the real code in a forked child so a missing row is an observed crash), every accepted spelling (all keys of the spelling '
     'tables, 2048 today) expanded by the independent symbol oracle and compared with the magnitude of the enumerator it parses to, and '
     'a bounded negative space on the real parser: every string within edit distance 1 of any accepted spelling plus all strings up to '
-    'length 2 (quick) / 3 (thorough) over the bytes in use, accepted iff byte-identical to a table key (linear scan oracle); every string is '
+    'length 2 (quick) / 3 (thorough) over the bytes in use, accepted iff byte-identical to a table key (linear scan oracle); thorough also walks EVERY string up to length 6-10 over the bytes of the '
+    'type\'s own spellings (5.3e10 strings, trie oracle); every string is '
     'parsed from one reused, non-terminated buffer directly after an accepted spelling of the same length (two-step histories); each '
     'enumerator converts to and from the standard unit by the magnitude its abbreviation denotes.',
     TB + 'Symbol oracle atom table; "accepted spelling" is defined as the key set of the library\'s spelling table (iterated, not looked up).',
@@ -82,7 +84,7 @@ reg('C11', 'exploration',
     'Bounded exhaustive exploration of every angle entry point found by probing (8 constructor kernels, 6 member forms on plain '
     'vectors/directions, Angle(Q,Q) and q.Angle(q) of every vector-valued quantity type) x 3 numeric types over pair families that '
     'cover the property\'s branch regions: ALL parallel and antiparallel pairs (a, +-k a) for a in {-4..4}^D and six factors k, nearly '
-    'parallel pairs a + 2^-k e_j for every k up to the mantissa width, all pairs of {-2..2}^D, each under power-of-two rescalings of '
+    'parallel pairs a + 2^-k e_j for every k up to the mantissa width, all pairs of {-2..2}^D, vectors whose components differ by up to 2^(max_exponent/2), each under power-of-two rescalings of '
     'either argument. Oracle on every evaluation: not NaN, in [0, pi], bitwise symmetric, bitwise scale invariant, within '
     '1e-3/1e-7/1e-9 rad of atan2(|a x b|, a.b) evaluated in __float128.',
     TB + 'Value axis is a finite alphabet: integer-lattice directions and their neighbourhoods, not all real vectors.',
@@ -94,7 +96,8 @@ reg('C09', 'exploration',
     'over {-2..2}^6, all 19683 dyads over {-1,0,1}^9, all pairs for SymmetricDyad*SymmetricDyad over {-1,0,1}^6, mixed and Dyad*Dyad '
     'products over complete {0,1}^9 grids and basis/generic partners; thorough: all 3.9e8 pairs of {-1,0,1}^9), demanded EXACTLY '
     'against an index-loop reference in integer arithmetic; Inverse under power-of-two scalings absent iff the integer determinant is '
-    'zero; plus generic real tensors to 4 ulp of the sum of |terms| against __float128. Each formula is a multilinear polynomial of '
+    'zero (scalings include one at which the determinant is subnormal), inverse components to 4 ulp of the exact quotient; embeddings by construction and by assignment; in-place scaling by a reference into the operand; '
+    'plus generic real tensors to 4 ulp of the sum of |terms| against __float128. Each formula is a multilinear polynomial of '
     'degree <= 3 per slot, so agreement on these grids identifies it.',
     TB + 'Real-valued inputs are a finite generic sample used only for the rounding bound; the exactness claim rests on the grids.',
     'exhaustive integer-grid enumeration against exact index-loop reference (bounded exhaustive exploration)', 'DESIGN.md section 7 C09')
@@ -122,7 +125,7 @@ reg('C14', 'exploration',
 
 reg('C12', 'exploration',
     'Bounded exhaustive exploration of the constitutive model: ALL 20 modulus-pair constructors and 7 accessors x a material grid '
-    'covering 75 binades of stiffness and Poisson ratios from exactly 0 through 2^-40 up to 1/2-2^-20 (the branch regions nu->0 and '
+    'covering 75 binades of stiffness and Poisson ratios from exactly 0 through 2^-40 up to 1/2-2^-40 (the branch regions nu->0 and '
     'nu->1/2 of the square-root and cancelling constructors) x 3 model precisions, each constructor fed the pair the model itself '
     'reports and compared with the exact __float128 function of that pair and with the original material under the perturbation '
     'oracle R3; stress/strain maps in all 9 (model precision x argument precision) combinations on basis/pair/generic tensors '
@@ -133,7 +136,7 @@ reg('C12', 'exploration',
     'exhaustive sweep of constructors/accessors/overloads x material grid against __float128 reference with perturbation oracle', 'DESIGN.md section 7 C12')
 reg('C13', 'exploration',
     'Bounded exhaustive exploration of both Newtonian fluid classes: 3 model precisions x 3 argument precisions x viscosity grid '
-    '(75 binades, five bulk/shear ratios including 0) x basis/pair/generic symmetric tensors: forward map against __float128, inverse '
+    '(75 binades, five bulk/shear ratios including 0) x basis/pair/generic symmetric tensors and every diagonal tensor over {-2..3}^3 (isotropic, plane-shear, first-entry-equals-mean): forward map against __float128, inverse '
     'composition under R3, strain arguments ignored bitwise, stubs exactly +0, virtual interface bitwise identical, homogeneity '
     'bitwise for power-of-two factors and additivity, single-argument compressible constructor identical to (mu, +0).',
     TB + 'Finite viscosity/tensor alphabets; the maps are linear so basis + pair tensors identify the formula.',
@@ -142,7 +145,7 @@ reg('C13', 'exploration',
 reg('C10', 'exploration',
     'Bounded exhaustive exploration of every construction path of Direction/PlanarDirection (components, array, vector, the three Set '
     'forms, Vector::Direction(), 2-D<->3-D, cross product, construction from every vector quantity) x 3 numeric types over ALL integer '
-    'vectors of {-6..6}^D, near-degenerate vectors (1, 2^-k, ..) for every k up to the mantissa width, at binades spread over the whole '
+    'vectors of {-6..6}^D, near-degenerate vectors (1, 2^-k, ..) and lengths 1 +- 2^-j for every k, j up to the mantissa width, histories on one object (set from its own value / components, self-assignment), at binades spread over the whole '
     'range in which the squared length neither overflows nor underflows, and zero vectors of both signs; unit length to 4 eps (norm in '
     '__float128), parallel/same sense, bitwise power-of-two scale invariance, all paths bitwise identical; every vector-valued quantity '
     'type (17, discovered by shape): Magnitude() type and value, typed component accessors, magnitude*direction and Q(magnitude, '
@@ -155,20 +158,21 @@ reg('C15', 'exploration',
     'neighbours, extremes and 2^16/2^22 stratified bit patterns: digit count = max_digits10+1, fixed iff 0.001 <= |x| < 10000 decided '
     'exactly, 0 for zeros, bit-identical parse-back. Composite: every quantity type, the 4 vector/tensor classes x 3 numeric types, '
     'standard form and every unit: number texts equal PhQ::Print(c_i) in declared order, unit abbreviation, JSON validated by an '
-    'independent recursive-descent parser (fields, key order), XML/YAML balance, operator<< == Print().',
+    'independent recursive-descent parser (fields, key order), XML/YAML balance, operator<< == Print() in six stream states (pending width/fill/adjustment, leftover flags and precision). '
+    'Plus one free-running ThreadSanitizer pass: printing from two threads at once gives the single-threaded strings without a data race.',
     TB + 'glibc strtof/strtod/strtold and printf are the conversion engines under both the library and the oracle; the oracle checks the '
     'text against the exact real-number conditions of the statement, not against another printer.',
     'exhaustive bit-pattern enumeration (float) + boundary-neighbourhood enumeration against exact real-number oracle', 'DESIGN.md section 7 C15')
 reg('C16', 'exploration',
     'Exhaustive over the configuration space: every quantity type and the 4 vector/tensor classes x all 6 ordered numeric-type pairs x '
-    '{converting construction, converting assignment into a non-zero target, assignment twice}, every slot compared bitwise with the '
-    'plain static_cast of the same slot of the source for slot-distinct values that are not representable in the narrower type; '
+    '{converting construction, converting assignment into a non-zero target, assignment twice, assignment over an equal-valued target with opposite zero signs}, every slot compared bitwise with the '
+    'plain static_cast of the same slot of the source for slot-distinct values that are not representable in the narrower type and for the boundary values of every narrowing conversion (around the narrower maximum and its rounding tie, smallest normal/subnormal); '
     'widen-then-narrow identity; directions within 2 ulp and of unit length.',
     TB + 'Conversions are per-slot casts with no data-dependent branches, so a fixed slot-distinct alphabet identifies truncated, permuted, dropped or accumulated slots.',
     'exhaustive configuration sweep of converting members against plain-cast reference', 'DESIGN.md section 7 C16', thorough=False)
 reg('C17', 'model_checking',
     'Explicit-state model checking on the real objects: for every quantity type x 3 numeric types, breadth-first search with state '
-    'hashing over histories of mutator/accessor operations (SetValue, MutableValue assignment, per-slot mutators, copy-assign, memcpy '
+    'hashing over histories of mutator/accessor operations (SetValue, MutableValue assignment, EVERY one-number mutator of the stored vector/tensor (6/9/24/27 writers), whole-value setters in scalar and array form and fed with references into the object itself in permuted order, copy-assign, memcpy '
     'out/in as array of numbers, array-of-quantities view) over a 3-value alphabet, to closure for 1-3 component types and to depth 3/4 '
     'for 6/9 component types, with a plain std::array as reference model compared after every transition (Value() and raw memory image); '
     'plus the static layout facts (sizeof, alignof, trivially copyable, standard layout, not polymorphic) and Zero() for every instance.',
@@ -178,9 +182,9 @@ reg('C17', 'model_checking',
 reg('C03', 'exploration',
     'Exhaustive over programs: the complete relation set is discovered by the compiler from the tree (all 92x93 operand pairs for the four '
     'binary operators, all one-argument and two-argument constructor tuples, 3/4-argument constructors and member functions confirmed by '
-    'the detection idiom: 781 operators, 313 constructors, 183 members today) and every relation is checked in all 3 numeric types: '
+    'the detection idiom, members with up to three quantity arguments: 781 operators, 313 constructors, 193 members today) and every relation is checked in all 3 numeric types: '
     'statically that the result type\'s dimension set is the sum/difference/same set, and dynamically that rescaling each of the seven '
-    'base units by 4 (and all at once) rescales the result by exactly the factor the result type predicts. Powers of 4 make the check '
+    'base units by 4 (all at once; and by 4^18 / 4^-18) rescales the result by exactly the factor the result type predicts. Powers of 4 make the check '
     'exact in binary floating point (0 ulp observed), so any wrong exponent shows as a factor >= 4.',
     TB + 'Two-argument constructor tuples are pre-filtered to type names that occur in the class header (a constructor must name its parameter '
     'types there); 3/4-argument constructors and members come from a text scan confirmed by the compiler. Operand values are a fixed alphabet.',
@@ -189,15 +193,15 @@ reg('C04', 'model_checking',
     'Explicit-state model checking of compound-assignment histories on the real objects (BFS with state hashing over all discovered += -= '
     '*= /= forms x 3 operand values, depth 4/5, 3.2e6 states, every transition compared bitwise with the pure-operator chain and with '
     'plain-number arithmetic), plus an exhaustive sweep of every discovered operator instance x 3 numeric types compared bitwise with the '
-    'same operator on the stored values (operand order exposed by asymmetric full-mantissa values), every constructor/operator twin '
-    'compared bitwise, the std:: math overloads of every dimensionless scalar, and an explicit instantiation of every member of every '
+    'same operator on the stored values (operand order exposed by asymmetric full-mantissa values; one operand at a time also at the ends of the numeric range), the raw vector/tensor classes and operands that alias the object in the histories, every constructor/operator twin '
+    'compared bitwise, the std:: math overloads of every dimensionless scalar (also on -0, +-inf, subnormals), and an explicit instantiation of every member of every '
     'class for all three numeric types.',
     TB + 'Harness and library are compiled in one TU with contraction off, so bitwise equality is the right oracle for "exactly".',
     'explicit-state BFS over operation histories + exhaustive operator sweep against plain-number reference model', 'DESIGN.md section 7 C04')
 reg('C05', 'exploration',
     'Exhaustive over programs: inverse pairs are derived mechanically from the compiler-discovered relation set (1495 pairs today: '
     'constructor form for both operands, operator form where no constructor twin exists, one-argument pairs from the smaller shape) and '
-    'each composition g(f(a,b),b) is compared with a over a positive magnitude grid spanning 80 binades in 3 numeric types; the accepted '
+    'each composition g(f(a,b),b) is compared with a over a positive magnitude grid spanning 80 binades (40 in float) in 3 numeric types (decided domain: moderate magnitudes; the ends of the numeric range are walked for information in the thorough tier); the accepted '
     'error is the implementation\'s own response to +-1,2,4 ulp moves of the intermediate and of b (perturbation oracle R3), floor 4 ulp.',
     TB + 'Pairing is by signature (constructors) or by opposite operator; the tolerance uses the implementation as its own sensitivity probe, '
     'so a defect that makes a relation wildly ill-conditioned in the same way in both directions would widen it.',
@@ -213,11 +217,11 @@ reg('C19', 'model_checking',
     'Schedule enumeration on the real toolchains, generalised by a Spin model with validated traces. For {g++, clang++} x {-O0, -O2} x each '
     'of the 39 enumeration types, programs are generated in which four kinds of namespace-scope objects defined after the includes '
     '(ordinary, inline, variable template, class-template static member) are initialised from an observation function that exercises every '
-    'table-backed facility for every enumerator (abbreviations, streaming, parsing, consistent units, related systems, run-time conversion '
+    'table-backed facility for every enumerator (abbreviations, streaming, parsing, consistent units, related systems, constitutive model objects with all their serialisations and maps, run-time conversion '
     'dispatch in 3 numeric types through scalar/container/constructor/accessor/printing forms, compile-time paths, comparison); built as one '
     'translation unit, as two translation units in both link orders and (representative types in quick, all in thorough) as three translation '
     'units with another user object behind a different header, in 3 / all 6 link orders; each program must link, exit 0 and observe before '
-    'main() exactly what main() observes. The Promela model of [basic.start.static]/[basic.start.dynamic] (table classes read off the object '
+    'main() exactly what main() observes; a translation unit that g++ builds and clang++ rejects is a violation too. The Promela model of [basic.start.static]/[basic.start.dynamic] (table classes read off the object '
     'files via guard variables) is checked over all initialisation orders the standard permits, and every real execution is replayed as a '
     'model trace (traces_validated_against_impl).',
     TB + 'clang++ 14 and g++ 12 as installed; the model is secondary - the verdict comes from executing the real programs.',
@@ -228,7 +232,8 @@ reg('C20', 'exploration',
     'direction/angle kernels, models) rebuilt under AddressSanitizer + UndefinedBehaviorSanitizer + libstdc++ debug mode and executed at '
     'their quick alphabets: any report, assertion or escaping exception is a violation. Part 2: ParseNumber<T> on ALL byte strings up to '
     'length 5 (quick) / 6 (thorough) over a 20-byte alphabet x 3 numeric types, differential against strtof/strtod/strtold, and '
-    'ParseEnumeration on the C08 negative space (incl. embedded NUL, non-ASCII) for all 39 types; thorough adds a valgrind memcheck pass.',
+    'ParseEnumeration on the C08 negative space (incl. embedded NUL, non-ASCII, unterminated views) for all 39 types; where a parser accepts a view the same bytes are also passed as an unterminated view into an exactly-sized heap block. '
+    'Part 3: one free-running ThreadSanitizer pass over the const interface used from two threads at once (a data race is undefined behaviour). thorough adds a valgrind memcheck pass.',
     TB + 'Sanitizers observe only executed paths: coverage is that of the re-run harnesses. glibc strto* is the oracle for number parsing.',
     'exhaustive bounded string enumeration + sanitizer-instrumented re-execution of the exhaustive harnesses', 'DESIGN.md section 7 C20')
 
